@@ -1363,3 +1363,106 @@ pub mod crash {
     }
 }
 pub use self::crash::{crash_point, fail_point};
+
+/// `config/file_lines.rs`: `Range`, `normalize_ranges`, the `FileLines` queries, and the two pieces
+/// of glue that turn a span into a decision: `lookup_line_range` and `out_of_file_lines_range!`.
+pub mod file_lines {
+    use crate::config::file_lines::{LineRange, verif_local as l};
+    use crate::config::{Config, FileLines, FileName};
+    use crate::source_map::LineRangeUtils;
+    use crate::utils::mk_sp;
+    use rustc_span::BytePos;
+
+    pub type R = (usize, usize);
+
+    pub fn range_is_empty(a: R) -> bool {
+        l::is_empty(a)
+    }
+    pub fn range_contains(a: R, b: R) -> bool {
+        l::contains(a, b)
+    }
+    pub fn range_intersects(a: R, b: R) -> bool {
+        l::intersects(a, b)
+    }
+    pub fn range_adjacent_to(a: R, b: R) -> bool {
+        l::adjacent_to(a, b)
+    }
+    pub fn range_merge(a: R, b: R) -> Option<R> {
+        l::merge(a, b)
+    }
+    pub fn sort(v: &[R]) -> Vec<R> {
+        l::sort(v)
+    }
+    pub fn normalize(v: &[R]) -> Vec<R> {
+        l::normalize(v)
+    }
+    /// `FileLines::from_ranges({stdin: v})`; `None` = the empty map (`--file-lines '[]'`).
+    pub fn from_ranges(v: Option<&[R]>) -> FileLines {
+        l::from_ranges(v)
+    }
+    pub fn stdin_ranges(fl: &FileLines) -> Option<Vec<R>> {
+        l::stdin_ranges(fl)
+    }
+    pub fn contains_line(fl: &FileLines, line: usize) -> bool {
+        fl.contains_line(&FileName::Stdin, line)
+    }
+    pub fn contains_range(fl: &FileLines, lo: usize, hi: usize) -> bool {
+        fl.contains_range(&FileName::Stdin, lo, hi)
+    }
+
+    /// A `SourceFile` named stdin, as `LineRange` wants one.
+    pub struct StdinFile(std::sync::Arc<rustc_span::SourceFile>);
+
+    pub fn stdin_file() -> StdinFile {
+        rustc_span::create_session_if_not_set_then(rustc_span::edition::Edition::Edition2015, |_| {
+            let (_psess, sf) =
+                crate::parse::session::verif_local::session_with_stdin(&Config::default(), "");
+            StdinFile(sf)
+        })
+    }
+
+    /// `FileLines::intersects(&LineRange { stdin, lo, hi })`.
+    pub fn intersects_range(fl: &FileLines, f: &StdinFile, lo: usize, hi: usize) -> bool {
+        fl.intersects(&LineRange {
+            file: f.0.clone(),
+            lo,
+            hi,
+        })
+    }
+    /// `FileLines::contains(&LineRange { stdin, lo, hi })`.
+    pub fn contains_line_range(fl: &FileLines, f: &StdinFile, lo: usize, hi: usize) -> bool {
+        fl.contains(&LineRange {
+            file: f.0.clone(),
+            lo,
+            hi,
+        })
+    }
+
+    struct Ctx<'a> {
+        config: &'a Config,
+        psess: &'a crate::parse::session::ParseSess,
+    }
+
+    /// For the byte span `lo..hi` of `text` (taken as stdin): the line range that
+    /// `ParseSess::lookup_line_range` gives, and the value of `out_of_file_lines_range!`
+    /// under `fl`.
+    pub fn span_lines_and_guard(text: &str, lo: u32, hi: u32, fl: &FileLines) -> (R, bool) {
+        let mut config = Config::default();
+        config.set().file_lines(fl.clone());
+        rustc_span::create_session_if_not_set_then(rustc_span::edition::Edition::Edition2015, |_| {
+            let (psess, sf) = crate::parse::session::verif_local::session_with_stdin(&config, text);
+            let span = mk_sp(sf.start_pos + BytePos(lo), sf.start_pos + BytePos(hi));
+            let lr = psess.lookup_line_range(span);
+            let ctx = Ctx {
+                config: &config,
+                psess: &psess,
+            };
+            let out = out_of_file_lines_range!(ctx, span);
+            ((lr.lo, lr.hi), out)
+        })
+    }
+
+    pub fn starts_with_newline(s: &str) -> bool {
+        crate::utils::starts_with_newline(s)
+    }
+}
